@@ -12,8 +12,9 @@ place() {
     C15-f) cp $S/demo_test.go lazyproto/seed_c15_demo_test.go; echo ./lazyproto/;;
     C16-f) cp $S/demo_test.go cmd/protoc-gen-fastmarshal/seed_demo_test.go; echo ./cmd/protoc-gen-fastmarshal/;;
     C20-f) cp $S/demo_test.go cmd/protodump/seed_demo_test.go; echo ./cmd/protodump/;;
+    C12-g) cp $S/demo_run_test.go cmd/protoc-gen-fastmarshal/seed_c12_demo_test.go; echo ./cmd/protoc-gen-fastmarshal/;;
     C07-e) cp -r $S SEED; rm -f SEED/patch.diff SEED/meta.json; mv SEED/demo_test.go cmd/protoc-gen-fastmarshal/seed_c07_demo_test.go; echo ./cmd/protoc-gen-fastmarshal/;;
-    *-c|*-d|*-e|*-f) cp -r $S SEED; rm -f SEED/patch.diff SEED/meta.json; echo SEEDDIR;;
+    *-c|*-d|*-e|*-f|*-g) cp -r $S SEED; rm -f SEED/patch.diff SEED/meta.json; echo SEEDDIR;;
     *) case "$pkgline" in
          csproto_test) cp $S/demo_test.go ./zz_seed_demo_test.go; echo .;;
          lazyproto_test) cp $S/demo_test.go lazyproto/zz_seed_demo_test.go; echo ./lazyproto/;;
